@@ -320,3 +320,310 @@ Print Assumptions f_canon_value.
 Print Assumptions f_trunc_exact.
 Print Assumptions f_neg_value.
 Print Assumptions f_abs_value.
+
+(** * Decimal text of integers: [str_of_Z], [int_of_str], and the schema lexer *)
+From V.model Require Import SimpleTypeLib.
+
+Definition dstep (acc c : N) : N := (acc * 10 + (c - 48))%N.
+
+Lemma dec_value_fold s : dec_value s = fold_left dstep s 0%N.
+Proof. reflexivity. Qed.
+
+Lemma is_digit_bounds c : is_digit c = true <-> (48 <= c <= 57)%N.
+Proof.
+  unfold is_digit. rewrite andb_true_iff, !N.leb_le. tauto.
+Qed.
+
+Lemma digit_char_is_digit n : is_digit (48 + n mod 10) = true.
+Proof.
+  apply is_digit_bounds. assert (H : (n mod 10 < 10)%N) by (apply N.mod_lt; lia).
+  revert H. generalize (n mod 10)%N. intros; lia.
+Qed.
+
+(** every character produced is a digit, and at least one is produced *)
+Lemma dec_digits_fuel_digits fuel : forall n acc,
+  forallb is_digit acc = true -> forallb is_digit (dec_digits_fuel fuel n acc) = true.
+Proof.
+  induction fuel as [|f IH]; intros n acc Hacc; cbn [dec_digits_fuel]; [assumption|].
+  destruct (n <? 10)%N.
+  - cbn [forallb]. now rewrite digit_char_is_digit.
+  - apply IH. cbn [forallb]. now rewrite digit_char_is_digit.
+Qed.
+
+Lemma dec_digits_fuel_length fuel : forall n acc,
+  (length acc <= length (dec_digits_fuel fuel n acc))%nat.
+Proof.
+  induction fuel as [|f IH]; intros n acc; cbn [dec_digits_fuel]; [lia|].
+  destruct (n <? 10)%N; cbn [length]; [lia|].
+  specialize (IH (n / 10)%N ((48 + n mod 10)%N :: acc)). cbn [length] in IH. lia.
+Qed.
+
+Lemma dec_of_N_all_digits n : all_digits (dec_of_N n) = true.
+Proof.
+  unfold all_digits, dec_of_N.
+  assert (L := dec_digits_fuel_length (S (N.to_nat (N.size n))) n []).
+  assert (D := dec_digits_fuel_digits (S (N.to_nat (N.size n))) n [] eq_refl).
+  destruct (dec_digits_fuel (S (N.to_nat (N.size n))) n []) eqn:E; [|exact D].
+  cbn [dec_digits_fuel] in E. destruct (n <? 10)%N.
+  - discriminate.
+  - assert (L2 := dec_digits_fuel_length (N.to_nat (N.size n)) (n / 10)%N [(48 + n mod 10)%N]).
+    rewrite E in L2. cbn [length] in L2. lia.
+Qed.
+
+(** the fuel suffices: reading the digits back gives the number *)
+Lemma dec_digits_fuel_value fuel : forall n acc,
+  (n < 2 ^ N.of_nat fuel)%N ->
+  fold_left dstep (dec_digits_fuel fuel n acc) 0%N = fold_left dstep acc n.
+Proof.
+  induction fuel as [|f IH]; intros n acc Hn.
+  - cbn [dec_digits_fuel]. change (2 ^ N.of_nat 0)%N with 1%N in Hn.
+    replace n with 0%N by lia. reflexivity.
+  - cbn [dec_digits_fuel].
+    assert (Hdm := N.div_mod n 10 ltac:(lia)).
+    assert (Hmb : (n mod 10 < 10)%N) by (apply N.mod_lt; lia).
+    destruct (N.ltb_spec n 10) as [Hlt|Hge].
+    + cbn [fold_left]. f_equal. unfold dstep.
+      rewrite N.mod_small by assumption. lia.
+    + rewrite IH.
+      * cbn [fold_left]. f_equal. unfold dstep.
+        revert Hdm Hmb. generalize (n / 10)%N (n mod 10)%N. intros; lia.
+      * rewrite Nat2N.inj_succ, N.pow_succ_r' in Hn.
+        apply N.div_lt_upper_bound; [lia|]. lia.
+Qed.
+
+Lemma dec_value_dec_of_N n : dec_value (dec_of_N n) = n.
+Proof.
+  rewrite dec_value_fold. unfold dec_of_N. rewrite dec_digits_fuel_value; [reflexivity|].
+  rewrite Nat2N.inj_succ, N2Nat.id, N.pow_succ_r'.
+  assert (H := N.size_gt n). lia.
+Qed.
+
+(** the number of digits is bounded by the magnitude *)
+Lemma dec_digits_fuel_count fuel : forall n acc k,
+  (1 <= k)%N -> (n < 10 ^ k)%N ->
+  (N.of_nat (length (dec_digits_fuel fuel n acc)) <= k + N.of_nat (length acc))%N.
+Proof.
+  induction fuel as [|f IH]; intros n acc k Hk Hn; cbn [dec_digits_fuel]; [lia|].
+  destruct (N.ltb_spec n 10) as [Hlt|Hge].
+  - cbn [length]. lia.
+  - assert (Hk2 : (2 <= k)%N).
+    { destruct (N.le_gt_cases 2 k) as [|Hk1]; [assumption|exfalso].
+      assert (k = 1)%N by lia. subst k. change (10 ^ 1)%N with 10%N in Hn. lia. }
+    specialize (IH (n / 10)%N ((48 + n mod 10)%N :: acc) (k - 1)%N ltac:(lia)).
+    cbn [length] in IH. rewrite Nat2N.inj_succ in IH.
+    assert (Hd : (n / 10 < 10 ^ (k - 1))%N).
+    { apply N.div_lt_upper_bound; [lia|].
+      replace k with (N.succ (k - 1)) in Hn by lia. now rewrite N.pow_succ_r' in Hn. }
+    specialize (IH Hd). lia.
+Qed.
+
+Lemma dec_of_N_count n k :
+  (1 <= k)%N -> (n < 10 ^ k)%N -> (N.of_nat (length (dec_of_N n)) <= k)%N.
+Proof.
+  intros Hk Hn. unfold dec_of_N.
+  assert (H := dec_digits_fuel_count (S (N.to_nat (N.size n))) n [] k Hk Hn).
+  cbn [length] in H. lia.
+Qed.
+
+(** shape of python str(int) *)
+Lemma str_of_Z_digits z :
+  (0 <= z -> all_digits (str_of_Z z) = true)
+  /\ (z < 0 -> exists ds, str_of_Z z = 45%N :: ds /\ all_digits ds = true).
+Proof.
+  destruct z as [|p|p]; cbn [str_of_Z]; split; intros H; try lia.
+  - reflexivity.
+  - apply dec_of_N_all_digits.
+  - eexists; split; [reflexivity|apply dec_of_N_all_digits].
+Qed.
+
+Lemma all_digits_cons s : all_digits s = true ->
+  exists c r, s = c :: r /\ is_digit c = true /\ forallb is_digit s = true.
+Proof.
+  destruct s as [|c r]; cbn [all_digits]; [discriminate|]. intros H.
+  exists c, r. split; [reflexivity|]. split; [|exact H].
+  cbn [forallb] in H. now apply andb_true_iff in H.
+Qed.
+
+Lemma digit_not_sign c : is_digit c = true ->
+  (c =? 45)%N = false /\ (c =? 43)%N = false /\ (c =? c_us)%N = false /\ is_pyspace c = false.
+Proof.
+  intros H. apply is_digit_bounds in H. unfold c_us, is_pyspace.
+  repeat split; repeat (apply orb_false_iff; split); try (apply N.eqb_neq; lia);
+    apply andb_false_iff; [right|left]; apply N.leb_gt; lia.
+Qed.
+
+(** the schema lexer reads back python str(int) *)
+Lemma lex_integer_str_of_Z z : lex_integer (str_of_Z z) = Some z.
+Proof.
+  destruct z as [|p|p]; cbn [str_of_Z].
+  - reflexivity.
+  - assert (A := dec_of_N_all_digits (N.pos p)).
+    destruct (all_digits_cons _ A) as (c & r & E & Hc & _).
+    assert (V := dec_value_dec_of_N (N.pos p)). rewrite E in A, V |- *.
+    destruct (digit_not_sign c Hc) as (H1 & H2 & _).
+    unfold lex_integer. change c_minus with 45%N. change c_plus with 43%N.
+    rewrite H1, H2, A, V. reflexivity.
+  - unfold lex_integer. change c_minus with 45%N. rewrite N.eqb_refl.
+    rewrite dec_of_N_all_digits, dec_value_dec_of_N. reflexivity.
+Qed.
+
+(** [int_of_str] on sign + digits *)
+Lemma scan_digits_all_digits ds : forall prev acc cnt,
+  forallb is_digit ds = true -> (ds = [] -> (prev =? c_us)%N = false) ->
+  scan_digits false prev ds acc cnt
+  = Some (fold_left dstep ds acc, (cnt + N.of_nat (length ds))%N).
+Proof.
+  induction ds as [|c r IH]; intros prev acc cnt Hd Hp.
+  - cbn [scan_digits fold_left length]. rewrite (Hp eq_refl). f_equal. f_equal. lia.
+  - cbn [forallb] in Hd. apply andb_true_iff in Hd. destruct Hd as [Hc Hr].
+    destruct (digit_not_sign c Hc) as (_ & _ & Hus & _).
+    cbn [scan_digits]. rewrite Hus. unfold dig_val. rewrite Hc.
+    rewrite IH; [|assumption|intros _; exact Hus].
+    cbn [fold_left length]. f_equal. f_equal. rewrite Nat2N.inj_succ. lia.
+Qed.
+
+Lemma drop_while_head {A} (f : A -> bool) c r : f c = false -> drop_while f (c :: r) = c :: r.
+Proof. intros H. cbn [drop_while]. now rewrite H. Qed.
+
+Lemma py_strip_id s c r l t :
+  s = c :: r -> rev s = l :: t -> is_pyspace c = false -> is_pyspace l = false ->
+  py_strip s = s.
+Proof.
+  intros Es Er Hc Hl. unfold py_strip. rewrite Es at 1. rewrite drop_while_head by assumption.
+  rewrite <- Es, Er, drop_while_head by assumption. rewrite <- Er. apply rev_involutive.
+Qed.
+
+Lemma all_digits_rev_head ds : all_digits ds = true ->
+  exists l t, rev ds = l :: t /\ is_digit l = true.
+Proof.
+  intros A. destruct (all_digits_cons _ A) as (c & r & E & _ & F).
+  destruct (rev ds) as [|l t] eqn:Er.
+  - apply (f_equal (@rev N)) in Er. rewrite rev_involutive in Er. subst ds. discriminate.
+  - exists l, t. split; [reflexivity|].
+    rewrite forallb_forall in F. apply F. apply in_rev. rewrite Er. now left.
+Qed.
+
+(** digits (after the optional sign) that the 4300-digit guard of [int_of_str] counts *)
+Definition int_digits (s : str) : N := N.of_nat (length (snd (take_sign s))).
+
+Lemma int_of_str_signed_digits (sg : list N) ds :
+  (sg = [] \/ sg = [45%N] \/ sg = [43%N]) -> all_digits ds = true ->
+  int_of_str false (sg ++ ds)
+  = if (int_max_str_digits <? N.of_nat (length ds))%N then Err ValueErr
+    else Ok (if str_eqb sg [45%N] then - Z.of_N (dec_value ds) else Z.of_N (dec_value ds)).
+Proof.
+  intros Hsg A.
+  destruct (all_digits_cons _ A) as (c & r & E & Hc & F).
+  destruct (all_digits_rev_head _ A) as (l & t & Er & Hl).
+  destruct (digit_not_sign c Hc) as (H45 & H43 & Hus & Hsp).
+  destruct (digit_not_sign l Hl) as (_ & _ & _ & Hlsp).
+  assert (Hscan : scan_digits false 0%N ds 0%N 0%N
+                  = Some (dec_value ds, N.of_nat (length ds))).
+  { rewrite scan_digits_all_digits; [reflexivity|exact F|]. rewrite E. discriminate. }
+  subst ds. unfold int_of_str.
+  destruct Hsg as [-> | [-> | ->]]; cbn [app str_eqb].
+  - rewrite (py_strip_id (c :: r) c r l t eq_refl Er Hsp Hlsp).
+    cbn [take_sign]. rewrite H45, H43. cbv beta iota zeta.
+    rewrite Hus, Hscan. cbn [negb andb].
+    destruct (int_max_str_digits <? N.of_nat (length (c :: r)))%N; reflexivity.
+  - rewrite (py_strip_id (45%N :: c :: r) 45%N (c :: r) l (t ++ [45%N]) eq_refl);
+      [|cbn [rev] in *; rewrite Er; reflexivity|reflexivity|exact Hlsp].
+    cbn [take_sign]. change (45 =? 45)%N with true. cbv beta iota zeta.
+    rewrite Hus, Hscan. cbn [negb andb].
+    destruct (int_max_str_digits <? N.of_nat (length (c :: r)))%N; reflexivity.
+  - rewrite (py_strip_id (43%N :: c :: r) 43%N (c :: r) l (t ++ [43%N]) eq_refl);
+      [|cbn [rev] in *; rewrite Er; reflexivity|reflexivity|exact Hlsp].
+    cbn [take_sign]. change (43 =? 45)%N with false. change (43 =? 43)%N with true.
+    cbv beta iota zeta.
+    rewrite Hus, Hscan. cbn [negb andb].
+    destruct (int_max_str_digits <? N.of_nat (length (c :: r)))%N; reflexivity.
+Qed.
+
+(** the shape the schema lexer accepts: sign list and digits *)
+Lemma lex_integer_shape s z :
+  lex_integer s = Some z ->
+  exists sg ds, s = sg ++ ds /\ (sg = [] \/ sg = [45%N] \/ sg = [43%N])
+    /\ all_digits ds = true /\ int_digits s = N.of_nat (length ds)
+    /\ z = (if str_eqb sg [45%N] then - Z.of_N (dec_value ds) else Z.of_N (dec_value ds)).
+Proof.
+  unfold lex_integer, int_digits. destruct s as [|c r]; [discriminate|].
+  change c_minus with 45%N. change c_plus with 43%N. cbn [take_sign].
+  destruct (N.eqb_spec c 45) as [->|Hm].
+  - destruct (all_digits r) eqn:A; [|discriminate]. intros [= <-].
+    exists [45%N], r. cbn [snd]. repeat split; auto.
+  - destruct (N.eqb_spec c 43) as [->|Hp].
+    + destruct (all_digits r) eqn:A; [|discriminate]. intros [= <-].
+      exists [43%N], r. cbn [snd]. repeat split; auto.
+    + destruct (all_digits (c :: r)) eqn:A; [|discriminate]. intros [= <-].
+      exists [], (c :: r). cbn [snd]. repeat split; auto.
+Qed.
+
+(** whatever the schema lexer accepts as an integer, python int() reads as the same
+    number, provided the number of digits after the sign is within the interpreter
+    limit *)
+Lemma int_of_str_lex s z :
+  lex_integer s = Some z -> (int_digits s <= int_max_str_digits)%N ->
+  int_of_str false s = Ok z.
+Proof.
+  intros H Hlen. destruct (lex_integer_shape s z H) as (sg & ds & -> & Hsg & A & Hd & ->).
+  rewrite int_of_str_signed_digits by assumption. rewrite Hd in Hlen.
+  destruct (N.ltb_spec int_max_str_digits (N.of_nat (length ds))); [lia|reflexivity].
+Qed.
+
+(** sufficient guard on the whole length *)
+Lemma int_of_str_lex_len s z :
+  lex_integer s = Some z -> (N.of_nat (length s) <= int_max_str_digits)%N ->
+  int_of_str false s = Ok z.
+Proof.
+  intros H Hlen. apply int_of_str_lex; [assumption|].
+  unfold int_digits. destruct s as [|c r]; [discriminate|]. cbn [take_sign].
+  destruct (c =? 45)%N; [|destruct (c =? 43)%N]; cbn [snd length] in *; lia.
+Qed.
+
+(** with more digits than the limit after the sign, the model raises like python *)
+Lemma int_of_str_lex_over s z :
+  lex_integer s = Some z -> (int_max_str_digits < int_digits s)%N ->
+  int_of_str false s = Err ValueErr.
+Proof.
+  intros H Hlen. destruct (lex_integer_shape s z H) as (sg & ds & -> & Hsg & A & Hd & ->).
+  rewrite int_of_str_signed_digits by assumption. rewrite Hd in Hlen.
+  destruct (N.ltb_spec int_max_str_digits (N.of_nat (length ds))); [reflexivity|lia].
+Qed.
+
+(** python int(str(z)) = z.  The bound is the interpreter digit limit: for larger z
+    python str(z) itself raises, and int() of that many digits raises too. *)
+Lemma int_of_str_of_Z z :
+  Z.abs z < 10 ^ Z.of_N int_max_str_digits -> int_of_str false (str_of_Z z) = Ok z.
+Proof.
+  intros Hz. apply int_of_str_lex; [apply lex_integer_str_of_Z|].
+  assert (G : forall p, Z.pos p < 10 ^ Z.of_N int_max_str_digits ->
+              (N.of_nat (length (dec_of_N (N.pos p))) <= int_max_str_digits)%N).
+  { intros p Hp. apply dec_of_N_count; [unfold int_max_str_digits; lia|].
+    apply N2Z.inj_lt. rewrite N2Z.inj_pow. exact Hp. }
+  unfold int_digits. destruct z as [|p|p]; cbn [str_of_Z].
+  - cbn. unfold int_max_str_digits. lia.
+  - assert (A := dec_of_N_all_digits (N.pos p)).
+    destruct (all_digits_cons _ A) as (c & r & E & Hc & _).
+    destruct (digit_not_sign c Hc) as (H45 & H43 & _).
+    specialize (G p Hz). rewrite E in G |- *. cbn [take_sign]. rewrite H45, H43. exact G.
+  - cbn [take_sign]. change (45 =? 45)%N with true. cbn [snd]. apply G. exact Hz.
+Qed.
+
+Example int_of_str_of_Z_nonvacuous :
+  int_of_str false (str_of_Z (-9144000)) = Ok (-9144000)
+  /\ lex_integer (str_of_Z (-9144000)) = Some (-9144000)
+  /\ str_of_Z (-9144000) = [45; 57; 49; 52; 52; 48; 48; 48]%N.
+Proof. vm_compute. repeat split. Qed.
+
+Example int_of_str_lex_nonvacuous :
+  lex_integer [43; 48; 52; 50]%N = Some 42
+  /\ (int_digits [43; 48; 52; 50]%N <= int_max_str_digits)%N
+  /\ int_of_str false [43; 48; 52; 50]%N = Ok 42.
+Proof. vm_compute. repeat split; discriminate. Qed.
+
+Print Assumptions int_of_str_of_Z.
+Print Assumptions lex_integer_str_of_Z.
+Print Assumptions int_of_str_lex.
+Print Assumptions int_of_str_lex_len.
+Print Assumptions int_of_str_lex_over.
+Print Assumptions str_of_Z_digits.
